@@ -102,6 +102,7 @@ type Graph struct {
 	nidx    map[string]*Node
 	fidx    map[string]*Flow
 	n       int
+	kn      map[Kind]int
 }
 
 func NewGraph(proc string) *Graph {
@@ -128,8 +129,12 @@ func (g *Graph) Flow(id string) *Flow { g.index(); return g.fidx[id] }
 // Add adds a node; id "" generates one.
 func (g *Graph) Add(kind Kind, id, scope string) *Node {
 	if id == "" {
-		g.n++
-		id = fmt.Sprintf("%s%d", shortKind(kind), g.n)
+		// per-kind counters: wrapping a block into sub-processes must not rename the tasks
+		if g.kn == nil {
+			g.kn = map[Kind]int{}
+		}
+		g.kn[kind]++
+		id = fmt.Sprintf("%s%d", shortKind(kind), g.kn[kind])
 	}
 	n := &Node{ID: id, Kind: kind, Scope: scope}
 	g.Nodes = append(g.Nodes, n)
